@@ -164,6 +164,15 @@ func (fr *Frame) instr(st *State, in ssa.Instruction) bool {
 		x.mapUpdate(st, mt, m, fr.val(in.Key), fr.val(in.Value))
 	case *ssa.Range:
 		fr.env[in] = c.freshConst("iter", "Loc")
+		if mt, ok := in.X.Type().Underlying().(*types.Map); ok {
+			// ghost: number of elements produced so far, and the map contents the iteration started from
+			st.Comp[mapIterKey(in)] = c.idx(0)
+			_, _, md, _ := x.mapKeys(mt)
+			if fr.rangeDom == nil {
+				fr.rangeDom = map[ssa.Value]string{}
+			}
+			fr.rangeDom[in] = sx("select", x.get(st, md), fr.val(in.X))
+		}
 	case *ssa.Next:
 		fr.next(st, in)
 	case *ssa.Call:
